@@ -1,6 +1,8 @@
 import Exetera.Model.MapValid
 import Exetera.Spec.MapValid
 import Exetera.Lemmas.MapValidStream
+import Exetera.Lemmas.MapValidIndexed4
+import Exetera.Lemmas.MapValidFlat2
 /-!
   C04 — Mapping a column through a join map gives the mapped value or the empty value.
 
@@ -156,5 +158,170 @@ example : orderedMapValidStream [1, 2, 3, 4, 5, 6, 7, 8, 9] [-1, -1, 0, -1, 0, 7
 
 /-- `marker_parametric`: the -1 map above re-marked with the 64-bit sentinel -/
 example : remark (-1) INVALID_INDEX_64 [-1, 0, 2] = [INVALID_INDEX_64, 0, 2] := by decide
+
+/-! ## the indexed-string stream -/
+
+/-- **Functional correctness of `ordered_map_valid_indexed_stream`.** For a well-formed indexed source (offsets from 0,
+    non-decreasing, ending at the number of bytes), every chunk size ≥ 1, every marker, every `value_factor` whose
+    value buffer `chunksize * value_factor` can hold the longest entry, and every map whose non-marker entries are row
+    numbers of the source in non-decreasing order: the stream terminates within its fuel with no out-of-bounds access
+    and without the D5 `ValueError`, and the destination's `indices` and `values` are exactly the stored form
+    (offsets, concatenated bytes) of the specified column of entries — `[]` where the map holds the marker. -/
+theorem map_indexed_stream_eq {β} (indices : List Int) (values : List β) (m : List Int) (inv : Int) (cs vf : Nat)
+    (hok : IndexedOK indices values) (hcs : 1 ≤ cs)
+    (hr : InRange (entries indices values).length m inv) (hm : ValidMonotone m inv)
+    (hcap : ∀ e ∈ entries indices values, e.length ≤ cs * vf) :
+    ∃ out, orderedMapValidIndexedStream indices values m inv cs vf = .ok out ∧
+      mapIndexedSpec indices values inv m = some out :=
+  indexed_stream_spec indices values m inv cs vf hok hcs hr hm hcap
+
+/-- **Chunk size and value-buffer size are unobservable** for the indexed stream. -/
+theorem indexed_chunk_unobservable {β} (indices : List Int) (values : List β) (m : List Int) (inv : Int)
+    (cs vf cs' vf' : Nat) (hok : IndexedOK indices values) (hcs : 1 ≤ cs) (hcs' : 1 ≤ cs')
+    (hr : InRange (entries indices values).length m inv) (hm : ValidMonotone m inv)
+    (hcap : ∀ e ∈ entries indices values, e.length ≤ cs * vf)
+    (hcap' : ∀ e ∈ entries indices values, e.length ≤ cs' * vf') :
+    orderedMapValidIndexedStream indices values m inv cs vf = orderedMapValidIndexedStream indices values m inv cs' vf' := by
+  obtain ⟨out, h1, h2⟩ := indexed_stream_spec indices values m inv cs vf hok hcs hr hm hcap
+  obtain ⟨out', h1', h2'⟩ := indexed_stream_spec indices values m inv cs' vf' hok hcs' hr hm hcap'
+  rw [h2] at h2'
+  cases h2'
+  rw [h1, h1']
+
+/-- D5, as repaired: a partial call that neither consumes a map entry nor asks for the next value sub-chunk ends the
+    stream with a `ValueError` — the driver never re-issues a call that cannot make progress.
+    (`_partial`: the full statement would be
+      `(∃ r k, m[r]? = some k ∧ k ≠ inv ∧ cs * vf < |entry k|) → ∃ msg, stream … = .error (.valueError msg)`,
+     i.e. that this is the *only* outcome for an over-long mapped entry; it is not proved — it needs the invariant of
+     `map_indexed_stream_eq` re-established for the prefix before the first over-long entry. The correspondence run
+     compares exactly this error on every such generated case, and `d5_witness` below evaluates the design-time witness.) -/
+theorem no_progress_is_value_error_partial {β} (map_ : List Int) (smEnd : Nat) (indices_ : List Int) (values : List β)
+    (subs : List (Nat × Nat)) (mvStart : Int) (capI capV : Nat) (inv : Int) (w : IW β) (p : IP β)
+    (hcall : indexedPartial map_ smEnd indices_ w.sc.1 w.sc.2 w.vals mvStart capI capV inv w.sm w.ri w.rv w.accum = .ok p)
+    (hsame : p.sm = w.sm) (hneed : p.need = false) :
+    innerBody map_ smEnd indices_ values subs mvStart capI capV inv w
+      = .error (.valueError "entry does not fit the value buffer") := by
+  simp [innerBody, hcall, hsame, hneed]
+
+/-- the design-time D5 witness (source `["abcdefghij","b"]`, map `[0,1]`, chunksize 2, value_factor 2): a clear error,
+    not `outOfFuel` -/
+theorem d5_witness :
+    orderedMapValidIndexedStream [0, 10, 11] [97, 98, 99, 100, 101, 102, 103, 104, 105, 106, 98] [0, 1] (-1) 2 2
+      = .error (.valueError "entry does not fit the value buffer") := by rfl
+
+/-! ## the non-streaming helpers give the same answer -/
+
+/-- `safe_map_values` with the filter "entry is not the marker" returns the specified column (empty value: the
+    caller's, or the dtype's zero) -/
+theorem safe_map_values_eq {α} (data : List α) (m : List Int) (inv : Int) (e : Option α) (zero : α)
+    (hr : InRange data.length m inv) :
+    ∃ out, safeMapValues data m (m.map (fun k => k != inv)) e zero = .ok out ∧
+      mapSpec data inv (e.getD zero) m = some out :=
+  safeMapValues_mapSpec data m inv e zero hr
+
+/-- `safe_map_values` with an arbitrary filter of the map's length (what `_unordered_merge` passes): rows whose filter is
+    set get `data[map[i]]`, all others the empty value; no out-of-bounds access -/
+theorem safe_map_values_rows {α} (data : List α) (m : List Int) (filt : List Bool) (e : Option α) (zero : α)
+    (hlen : filt.length = m.length)
+    (hr : ∀ (i : Nat) (k : Int), m[i]? = some k → filt[i]? = some true → 0 ≤ k ∧ k < data.length) :
+    ∃ out, safeMapValues data m filt e zero = .ok out ∧ out.length = m.length ∧
+      ∀ (i : Nat) (k : Int) (b : Bool), m[i]? = some k → filt[i]? = some b →
+        out[i]? = if b then data[k.toNat]? else some (e.getD zero) :=
+  safeMapValues_spec data m filt e zero hlen hr
+
+/-- `map_valid` allocating its result returns the specified column with the dtype's zero as empty value -/
+theorem map_valid_eq {α} (data : List α) (m : List Int) (inv : Int) (zero : α) (hr : InRange data.length m inv) :
+    ∃ out, mapValid data m none inv zero = .ok out ∧ mapSpec data inv zero m = some out :=
+  mapValid_mapSpec data m inv zero hr
+
+/-- `map_valid` writing into a caller-supplied array of the map's length: marker rows keep what the array held -/
+theorem map_valid_rows {α} (data : List α) (m : List Int) (result : List α) (inv : Int) (zero : α)
+    (hres : result.length = m.length) (hr : InRange data.length m inv) :
+    ∃ out, mapValid data m (some result) inv zero = .ok out ∧ out.length = m.length ∧
+      ∀ (i : Nat) (k : Int), m[i]? = some k → out[i]? = if k = inv then result[i]? else data[k.toNat]? := by
+  obtain ⟨out, h1, h2, h3⟩ := mapValid_spec data m (some result) inv zero (by intro r h; cases h; exact hres) hr
+  exact ⟨out, h1, h2, by simpa using h3⟩
+
+/-- `safe_map_indexed_values` with the filter "entry is not the marker" and no `empty_value` returns the stored form of
+    the specified column of entries -/
+theorem safe_map_indexed_values_eq {β} (indices : List Int) (values : List β) (m : List Int) (inv : Int)
+    (hok : IndexedOK indices values) (hr : InRange (entries indices values).length m inv) :
+    ∃ out, safeMapIndexedValues indices values m (m.map (fun k => k != inv)) [] = .ok out ∧
+      mapIndexedSpec indices values inv m = some out :=
+  safeMapIndexedValues_mapSpec indices values m inv hok hr
+
+/-- **The non-streaming helpers agree with the streams** (on ordered maps, where both are defined). -/
+theorem nonstream_agree {α} (src : List α) (m : List Int) (inv : Int) (cs : Nat) (zero : α)
+    (hcs : 1 ≤ cs) (hr : InRange src.length m inv) (hm : ValidMonotone m inv) :
+    orderedMapValidStream src m inv cs zero = safeMapValues src m (m.map (fun k => k != inv)) none zero ∧
+    orderedMapValidStream src m inv cs zero = mapValid src m none inv zero := by
+  obtain ⟨o1, a1, b1⟩ := stream_spec src m inv cs zero hcs hr hm
+  obtain ⟨o2, a2, b2⟩ := safeMapValues_mapSpec src m inv none zero hr
+  obtain ⟨o3, a3, b3⟩ := mapValid_mapSpec src m inv zero hr
+  simp only [Option.getD_none] at b2
+  rw [b1] at b2 b3
+  cases b2; cases b3
+  exact ⟨by rw [a1, a2], by rw [a1, a3]⟩
+
+theorem nonstream_agree_indexed {β} (indices : List Int) (values : List β) (m : List Int) (inv : Int) (cs vf : Nat)
+    (hok : IndexedOK indices values) (hcs : 1 ≤ cs)
+    (hr : InRange (entries indices values).length m inv) (hm : ValidMonotone m inv)
+    (hcap : ∀ e ∈ entries indices values, e.length ≤ cs * vf) :
+    orderedMapValidIndexedStream indices values m inv cs vf
+      = safeMapIndexedValues indices values m (m.map (fun k => k != inv)) [] := by
+  obtain ⟨o1, a1, b1⟩ := indexed_stream_spec indices values m inv cs vf hok hcs hr hm hcap
+  obtain ⟨o2, a2, b2⟩ := safeMapIndexedValues_mapSpec indices values m inv hok hr
+  rw [b1] at b2
+  cases b2
+  rw [a1, a2]
+
+/-! ## the helper kernels (the facts the stream proofs rest on; also the memory-safety content for C10) -/
+
+/-- `get_map_subchunks_based_on_index_lengths` terminates and partitions the map chunk into consecutive non-empty
+    pieces, for every marker and every chunk size ≥ 1 -/
+theorem subchunks_partition (m : List Int) (inv : Int) (cs : Nat) (hcs : 1 ≤ cs) :
+    ∃ subs, subchunks m inv cs = .ok subs ∧ Tiles subs 0 m.length :=
+  subchunks_tiles m inv cs hcs
+
+/-- `get_valid_value_extents` on a non-empty range inside the chunk reads in bounds and returns the marker twice when
+    the range holds no valid entry, else the first and the last valid entry -/
+theorem extents_correct (m : List Int) (s e : Nat) (inv : Int) (hse : s < e) (he : e ≤ m.length) :
+    ∃ d, getValidValueExtents m s e inv = .ok d ∧
+      ((d.1 = inv ∧ ∀ p, s ≤ p → p < e → m[p]? = some inv) ∨
+       (d.1 ≠ inv ∧ d.2 ≠ inv ∧ ∃ p0 p1, s ≤ p0 ∧ p0 ≤ p1 ∧ p1 < e ∧ m[p0]? = some d.1 ∧ m[p1]? = some d.2 ∧
+          ∀ q x, s ≤ q → q < e → m[q]? = some x → x ≠ inv → p0 ≤ q ∧ q ≤ p1)) :=
+  extents_spec m s e inv hse he
+
+/-- `calculate_chunk_decomposition` reads in bounds, terminates, and partitions `[s, e)` -/
+theorem decomposition_partition (indices : List Int) (budget : Int) (s e : Nat) (hse : s < e) (he : e < indices.length) :
+    ∃ subs, chunkDecomp indices budget s e = .ok subs ∧ Tiles subs s e :=
+  chunkDecomp_spec indices budget s e hse he
+
+/-! ### non-vacuity of the indexed and non-streaming theorems -/
+
+/-- source `["a","bb","ccc"]`, the D11 witness map, buffer of 4·1 bytes ≥ longest entry (3) -/
+example : IndexedOK [0, 1, 3, 6] [97, 98, 98, 99, 99, 99] ∧
+    InRange (entries [0, 1, 3, 6] [97, 98, 98, 99, 99, 99]).length [0, 1, INVALID_INDEX_32, INVALID_INDEX_32] INVALID_INDEX_32 ∧
+    ValidMonotone [0, 1, INVALID_INDEX_32, INVALID_INDEX_32] INVALID_INDEX_32 ∧
+    (∀ e ∈ entries [0, 1, 3, 6] [97, 98, 98, 99, 99, 99], e.length ≤ 4 * 1) :=
+  ⟨by unfold IndexedOK; decide, inRange_of_all (by decide), validMonotone_of_pairwise (by decide), by decide⟩
+
+example : orderedMapValidIndexedStream [0, 1, 3, 6] [97, 98, 98, 99, 99, 99]
+    [0, 1, INVALID_INDEX_32, INVALID_INDEX_32] INVALID_INDEX_32 4 1 = .ok ([0, 1, 3, 3, 3], [97, 98, 98]) := by rfl
+
+example : mapIndexedSpec [0, 1, 3, 6] [97, 98, 98, 99, 99, 99] INVALID_INDEX_32
+    [0, 1, INVALID_INDEX_32, INVALID_INDEX_32] = some ([0, 1, 3, 3, 3], [97, 98, 98]) := by decide
+
+/-- several value sub-chunks and buffer flushes: chunksize 2, value_factor 2, entries of 1, 2, 3 and 4 bytes -/
+example : orderedMapValidIndexedStream [0, 1, 3, 6, 10] [1, 2, 2, 3, 3, 3, 4, 4, 4, 4] [0, 1, -1, 2, 2, 3] (-1) 2 2
+    = .ok ([0, 1, 3, 3, 6, 9, 13], [1, 2, 2, 3, 3, 3, 3, 3, 3, 4, 4, 4, 4]) := by rfl
+
+example : safeMapValues [10, 20, 30] [2, -1, 0] ([2, -1, 0].map (fun k => k != -1)) none (0 : Int) = .ok [30, 0, 10] := by rfl
+example : mapValid [10, 20, 30] [2, -1, 0] (some [7, 7, 7]) (-1) (0 : Int) = .ok [30, 7, 10] := by rfl
+example : safeMapIndexedValues [0, 1, 3] [97, 98, 99] [1, -1, 0] ([1, -1, 0].map (fun k => k != -1)) []
+    = .ok ([0, 2, 2, 3], [98, 99, 97]) := by rfl
+example : subchunks [0, 1, 5, 9, -1] (-1) 4 = .ok [(0, 2), (2, 3), (3, 5)] := by rfl
+example : getValidValueExtents [-1, 1, 5, -1] 0 4 (-1) = .ok (1, 5) := by rfl
+example : chunkDecomp [0, 1, 3, 6, 10, 15, 21, 28, 36, 45] 8 0 9 = .ok [(0, 2), (2, 4), (4, 5), (5, 6), (6, 7), (7, 8), (8, 9)] := by rfl
 
 end Exetera.Props.C04
